@@ -51,6 +51,6 @@ PROP = dict(
                "variant of the code). Witness lemmas refute the code as found (3 defects), each single-repair omission, two tempting repair "
                "candidates, Pause without the mutex, and sequential collection of the acknowledgements in Resume (deadlock with workers that feed each other). Model tied to the real pause package driven by REAL stage worker goroutines (independent, made busy with items, or joined into chains through bounded channels like the stages): after every invocation (sequential "
                "driver: exact prediction, except where a Pause and a Resume both wait for the mutex; concurrent driver: monitors) the process is observed at true quiescence, decided from a "
-               "stop-the-world goroutine dump, so a call that never returns is detected without timeouts.",
+               "stop-the-world goroutine dump, so a call that never returns is detected without timeouts. Stage level (pausestart): the real stages started through their exported Start/Stop with WorkersCount = w (2-4), seeds offered while paused: exact prediction by the same LTS and monitors for C14_subscribers_are_live_workers / C14_pause_stops_every_worker (one subscriber per worker, no stage takes an item between two paused observations, all w workers of every stage acknowledging iff paused).",
     technique="Coq proof (LTS + invariant + measure) with differential/monitor correspondence on the real goroutines",
 )
